@@ -48,10 +48,25 @@ def scan_forbidden() -> list[str]:
 
 
 def check_props(pid: str) -> dict:
-    """Re-compiles Props/<pid>.v (to a scratch .vo) and parses its Print Assumptions output."""
+    """Re-compiles Props/<pid>.v and every Props/<pid>_*.v (to scratch .vo files) and parses their Print Assumptions output."""
     t0 = time.time()
     ok, out = build()
-    src = COQ / "Props" / f"{pid}.v"
+    infos = [_check_one(pid, src, ok, out) for src in [COQ / "Props" / f"{pid}.v"] + sorted((COQ / "Props").glob(f"{pid}_*.v"))]
+    info = infos[0]
+    for extra in infos[1:]:
+        info["file"] += ", " + extra["file"]
+        info["build_ok"] = info["build_ok"] and extra["build_ok"]
+        info["theorems"] += extra["theorems"]
+        info["axioms"].update(extra["axioms"])
+        info["closed"] += extra["closed"]
+        info["errors"] += extra["errors"]
+        info["print_assumptions_missing"] = info.get("print_assumptions_missing", []) + extra.get("print_assumptions_missing", [])
+    info["forbidden"] = scan_forbidden()
+    info["wall_s"] = round(time.time() - t0, 2)
+    return info
+
+
+def _check_one(pid: str, src: Path, ok: bool, out: str) -> dict:
     info: dict = {"file": str(src.relative_to(VERIF)), "build_ok": ok, "theorems": [], "axioms": {},
                   "closed": 0, "errors": ""}
     if not src.exists():
@@ -68,9 +83,9 @@ def check_props(pid: str) -> dict:
         return info
     import os
     import shutil
-    scratch = COQ / "_cases" / f"props_{pid}_{os.getpid()}"
+    scratch = COQ / "_cases" / f"props_{src.stem}_{os.getpid()}"
     scratch.mkdir(parents=True, exist_ok=True)
-    vo = scratch / f"{pid}.vo"
+    vo = scratch / f"{src.stem}.vo"
     rc, pout = _run(["coqc", "-Q", str(COQ), "Repid", "-o", str(vo), str(src)], COQ, 900)
     shutil.rmtree(scratch, ignore_errors=True)
     if rc != 0:
@@ -89,6 +104,4 @@ def check_props(pid: str) -> dict:
             ax = re.findall(r"^([A-Za-z_][\w\.']*)\s*:", b, re.M)
             info["axioms"][name] = ax
     info["print_assumptions_missing"] = [n for n in names if n not in printed]
-    info["forbidden"] = scan_forbidden()
-    info["wall_s"] = round(time.time() - t0, 2)
     return info
